@@ -80,6 +80,25 @@ pub fn run(ctx: &Ctx) -> i32 {
                 Ok((_, Err(er))) => acc.viol("C10|encrypt_to_recipient|listed|refused", format!("{er}"), cid("roundtrip"), json!({"tree": m.show()})),
             }
         }
+        // the doc(hidden) *_opt variants (fixed nonce) must behave like the plain calls
+        for (k, kp) in keys.iter().enumerate().take(nlisted) {
+            acc.inc("decrypt_attempts");
+            let n = bind::nonce0();
+            let cid = |s: &str| format!("tree{ti}/opt-variants/{}/{s}", kp.name);
+            let r = catch(|| {
+                let a = e.encrypt_subject_to_recipient_opt(&kp.pk, Some(&n))?.decrypt_subject_to_recipient(&kp.sk)?;
+                let b = e.encrypt_subject_to_recipients_opt(&[&kp.pk as &dyn Encrypter], Some(&n))?.decrypt_subject_to_recipient(&kp.sk)?;
+                let ck = SymmetricKey::from_data([0x44; 32]);
+                let c = e.encrypt_subject(&ck)?.add_recipient_opt(&kp.pk, &ck, Some(&n)).decrypt_subject_to_recipient(&kp.sk)?;
+                anyhow::Ok((a, b, c))
+            });
+            match r {
+                Ok(Ok((a, b, c))) => for (vn, x) in [("encrypt_subject_to_recipient_opt", a), ("encrypt_subject_to_recipients_opt", b), ("add_recipient_opt", c)] { if bind::observe(&x.subject()) != subj_obs { acc.viol(format!("C10|{vn}|listed|differs"), "the fixed-nonce variant does not round-trip the subject", cid(vn), json!({"tree": m.show()})) } },
+                Ok(Err(er)) => acc.viol("C10|opt-variants|listed|refused", format!("{er}"), cid("refused"), json!({"tree": m.show()})),
+                Err(p) => acc.viol(format!("C10|opt-variants|panic|{}", p.site), p.msg.clone(), cid("panic"), json!({})),
+            }
+            let _ = k;
+        }
         // later add_recipient with the content key: earlier recipients still succeed, the new one too
         let ck = SymmetricKey::from_data([0x33; 32]);
         for first in 0..nlisted { for later in 0..nlisted {
